@@ -205,6 +205,12 @@ impl<CharIter: Iterator<Item = char>> Lexer<CharIter> {
     fn normal_identifier(&mut self) -> Result<Option<TokenData>> {
         match self.current {
             Some(c) => {
+                if !is_identifier_initial(c) {
+                    return located_error!(
+                        SyntaxError::UnexpectedCharacter(c),
+                        Some(self.location)
+                    );
+                }
                 let mut identifier_str = String::new();
                 identifier_str.push(c);
                 while let Some(nc) = self.peekable_char_stream.peek() {
